@@ -11,12 +11,13 @@ FUNCTIONS = ["StockDrivenDSM._compute_inflow_manual", "StockDrivenDSM._compute_i
 ASSUMPTIONS = ["every cohort's first-interval survival share >= 1/20 (the property's precondition)", "time items strictly increasing",
                "scipy.linalg.solve_triangular satisfies its documented contract (fresh x with tri(a) x = b); LAPACK itself is trusted"]
 OUTSIDE = ["n beyond the bound", "IEEE rounding / conditioning of the triangular solve"]
-VARIANTS = 'arrays as transposed views; shared lifetime object re-parameterised between the constructions; stock-driven model computed (and read) before; 17 and 33 time items on concrete 0/1 tables'
+VARIANTS = 'arrays as transposed views; shared lifetime object re-parameterised between the constructions; stock-driven model computed (and read) before; 17 and 33 time items on concrete 0/1 tables; the inflow-driven model converted from the computed stock-driven one / computed before / built on filled arrays'
 BOUNDS = {"quick": dict(n=[3, 4], extra=["-", "r2"], grids=dsm.GRIDS), "thorough": dict(n=[3, 4, 5, 6], extra=["-", "r2", "r2xp2"], grids=dsm.GRIDS)}
 for _t in BOUNDS.values():
     _t["variants_beyond_the_base_enumeration"] = VARIANTS
 # dtype shadow: every shadowed configuration is run once more on integer-dtype arrays (differential concrete run)
-DTYPE_SHADOW = lambda cfg: cfg["h"] != "fixed_concrete"
+# (not where the harness makes an input array the result buffer of the other model: an integer buffer would truncate the results)
+DTYPE_SHADOW = lambda cfg: cfg["h"] != "fixed_concrete" and not cfg.get("idsm")
 OPTS = {"quick": dict(shadow_every=3, timeout_ms=20000), "thorough": dict(shadow_every=5, timeout_ms=120000)}
 
 
@@ -50,6 +51,13 @@ def configs(tier, seed):
         for extra in ({}, {"r": 2}):
             ek = "x".join(f"{l}{k}" for l, k in extra.items()) or "-"
             out.append(dict(h="in_to_stock_to_in", op=solver + "again", key=f"in_to_stock_to_in/{solver}/grid=uneven/n=3/extra={ek}/stock_driven_model_computed_before", solver=solver, grid="uneven", n=3, extra=extra, again=True))
+    # the inflow-driven model does not start from fresh zero arrays: converted from the computed stock-driven model,
+    # computed before with another inflow, or built on arrays that hold old results
+    for solver in ("manual", "lapack"):
+        for how in ("to_stock_type", "computed_before", "filled_arrays"):
+            for extra in ({}, {"r": 2}):
+                ek = "x".join(f"{l}{k}" for l, k in extra.items()) or "-"
+                out.append(dict(h="stock_to_in_to_stock", op=solver + how, key=f"stock_to_in_to_stock/{solver}/grid=uneven/n=3/extra={ek}/inflow_driven_model={how}", solver=solver, grid="uneven", n=3, extra=extra, idsm=how))
     # one lifetime model object shared by both models, its parameters set again between the two constructions
     for solver in ("manual", "lapack"):
         for first in ("idsm", "sdsm"):
@@ -162,7 +170,23 @@ def run(cfg, w):
         w.set_scale(S)
         s = dsm.build_stock("sdsm_" + cfg["solver"], dims, lifetime=lt(), stock=S)
         s.compute()
-        a = dsm.build_stock("idsm", dims, lifetime=lt(), inflow=s.inflow.values)
+        if cfg.get("idsm") == "to_stock_type":
+            # the computed stock-driven model converted in place of a fresh construction: the inflow-driven model starts
+            # from arrays that are already filled
+            from flodym.stocks import InflowDrivenDSM
+
+            d = {k: v for k, v in s.__dict__.items() if k != "solver"}
+            a = InflowDrivenDSM(**d)
+            w.ob("converted_model_is_inflow_driven", type(a) is InflowDrivenDSM)
+        elif cfg.get("idsm") == "computed_before":
+            a = dsm.build_stock("idsm", dims, lifetime=lt(), inflow=w.arr("before", shape))
+            a.compute()
+            a.get_stock_by_cohort(), a.get_outflow_by_cohort()
+            a.inflow.set_values(s.inflow.values.copy())
+        elif cfg.get("idsm") == "filled_arrays":
+            a = dsm.build_stock("idsm", dims, lifetime=lt(), inflow=s.inflow.values, stock=w.arr("oldst", shape), outflow=w.arr("oldout", shape))
+        else:
+            a = dsm.build_stock("idsm", dims, lifetime=lt(), inflow=s.inflow.values)
         a.compute()
         _cmp(w, "stock_reproduced", a.stock.values, S)
         _cmp(w, "same_outflow", a.outflow.values, s.outflow.values)
